@@ -134,6 +134,18 @@ func (c c11Case) run(viol func(sig, detail string), r *core.Run) {
 	case "sharded":
 		s = store.New()
 		root, sz, err = gen.OursSharded(s, c.Fanout, gen.Leaves(s, c.Names))
+	case "sharded-shared-targets", "plain-shared-targets":
+		// several names link the same block: the tree sum counts it per link
+		s = store.New()
+		es := gen.Leaves(s, c.Names)
+		for i := range es {
+			es[i].Cid, es[i].Tsize = es[i%2].Cid, es[i%2].Tsize
+		}
+		if c.Kind == "sharded-shared-targets" {
+			root, sz, err = gen.OursSharded(s, c.Fanout, es)
+		} else {
+			root, sz, err = gen.OursDir(s, es)
+		}
 	case "plain", "auto":
 		s = store.New()
 		root, sz, err = gen.OursDir(s, gen.Leaves(s, c.Names))
@@ -213,6 +225,9 @@ func runC11(r *core.Run) {
 		}
 		if mask < 512 {
 			cases = append(cases, c11Case{Kind: "plain", Names: names})
+		}
+		if mask > 2 && mask < 256 {
+			cases = append(cases, c11Case{Kind: "plain-shared-targets", Names: names}, c11Case{Kind: "sharded-shared-targets", Fanout: 8, Names: names})
 		}
 		if mask > 0 && mask < 128 {
 			cases = append(cases, c11Case{Kind: "dir-of-files", Names: names})
